@@ -541,4 +541,251 @@ theorem emsdN_length_unit (c : Rat) (t : List PRow) (d : Nat) (mpp fps : Rat) (m
   intro x _
   simp [Function.comp]
 
+/-! ## (d) the names and the order of the particles -/
+
+/-- the particle ids renamed by `σ` -/
+def relabel (σ : Nat → Nat) (t : List PRow) : List PRow := t.map fun r => (σ r.1, r.2)
+
+theorem wmean_perm {l l' : List (Rat × Rat)} (h : l.Perm l') : wmean l = wmean l' := by
+  unfold wmean
+  rw [h.length_eq, sum_perm (h.map fun x => x.1 * x.2), sum_perm (h.map (·.1))]
+
+/-- **(d) the order of the particles**: `emsd` (every column, and `N`) does not depend on the order
+in which the per-particle tables are listed -/
+theorem emsd_particle_order (per per' : List (Nat × List Out)) (h : per.Perm per')
+    (col : Out → Option Rat) (lag : Nat) :
+    emsdAt per col lag = emsdAt per' col lag ∧ emsdN per lag = emsdN per' lag := by
+  constructor
+  · rw [emsdAt_eq_wmean, emsdAt_eq_wmean]
+    exact wmean_perm (h.filterMap _)
+  · unfold emsdN
+    exact sum_perm (h.filterMap _)
+
+theorem rowsOf_relabel (σ : Nat → Nat) (hσ : ∀ a b, σ a = σ b → a = b) (t : List PRow) (p : Nat) :
+    rowsOf (relabel σ t) (σ p) = rowsOf t p := by
+  unfold rowsOf relabel
+  rw [List.filter_map, List.map_map]
+  have hp : ((fun r : PRow => r.1 == σ p) ∘ fun r : PRow => (σ r.1, r.2)) = fun r : PRow => r.1 == p := by
+    funext r
+    simp only [Function.comp]
+    by_cases h : r.1 = p
+    · simp [h]
+    · have : ¬ (σ r.1 = σ p) := fun e => h (hσ _ _ e)
+      simp [h, this]
+  rw [hp]
+  rfl
+
+/-- the particles of the renamed table are the renamed particles (in the order of the NEW names) -/
+theorem particleIds_relabel (σ : Nat → Nat) (hσ : ∀ a b, σ a = σ b → a = b) (t : List PRow) :
+    (particleIds (relabel σ t)).Perm ((particleIds t).map σ) := by
+  have hnd : ((particleIds t).map σ).Nodup := by
+    unfold List.Nodup
+    rw [List.pairwise_map]
+    exact (particleIds_nodup t).imp (fun hne e => hne (hσ _ _ e))
+  rw [List.perm_ext_iff_of_nodup (particleIds_nodup _) hnd]
+  intro q
+  rw [mem_particleIds, List.mem_map]
+  constructor
+  · rintro ⟨r, hr, rfl⟩
+    obtain ⟨r0, hr0, rfl⟩ := List.mem_map.mp hr
+    exact ⟨r0.1, (mem_particleIds t r0.1).mpr ⟨r0, hr0, rfl⟩, rfl⟩
+  · rintro ⟨p, hp, rfl⟩
+    obtain ⟨r0, hr0, rfl⟩ := (mem_particleIds t p).mp hp
+    exact ⟨(σ r0.1, r0.2), List.mem_map.mpr ⟨r0, hr0, rfl⟩, rfl⟩
+
+/-- **(d) renaming the particles**: for every multi-particle table and every injective renaming `σ`
+of the particle ids, every column of `emsd` at every lag (NaN included) and its `N` are those of the
+original table — although the per-particle tables are now listed in the order of the new names -/
+theorem emsd_particle_relabel (σ : Nat → Nat) (hσ : ∀ a b, σ a = σ b → a = b) (t : List PRow)
+    (d : Nat) (mpp fps : Rat) (maxLag : Nat) (col : Out → Option Rat) (lag : Nat) :
+    emsdAt (perParticle (relabel σ t) d mpp fps maxLag) col lag
+        = emsdAt (perParticle t d mpp fps maxLag) col lag
+      ∧ emsdN (perParticle (relabel σ t) d mpp fps maxLag) lag
+        = emsdN (perParticle t d mpp fps maxLag) lag := by
+  have hper : (perParticle (relabel σ t) d mpp fps maxLag).map (·.2)
+      |>.Perm ((perParticle t d mpp fps maxLag).map (·.2)) := by
+    unfold perParticle
+    rw [List.map_map, List.map_map]
+    refine ((particleIds_relabel σ hσ t).map _).trans ?_
+    rw [List.map_map]
+    apply List.Perm.of_eq
+    apply List.map_congr_left
+    intro p _
+    simp only [Function.comp, rowsOf_relabel σ hσ]
+  -- both `emsdAt` and `emsdN` only see the tables, not the names
+  have hA : ∀ per : List (Nat × List Out), emsdAt per col lag
+      = wmean ((per.map (·.2)).filterMap fun outs =>
+          (rowAt outs lag).bind fun o => (col o).map fun v => (o.n, v)) := by
+    intro per
+    rw [emsdAt_eq_wmean]
+    unfold contrib
+    rw [List.filterMap_map]
+    rfl
+  have hN : ∀ per : List (Nat × List Out), emsdN per lag
+      = ((per.map (·.2)).filterMap fun outs => (rowAt outs lag).map (·.n)).sum := by
+    intro per
+    unfold emsdN
+    rw [List.filterMap_map]
+    rfl
+  constructor
+  · rw [hA, hA]
+    exact wmean_perm (hper.filterMap _)
+  · rw [hN, hN]
+    exact sum_perm (hper.filterMap _)
+
+/-- **(d) imsd**: the column of the per-particle matrix moves with the name -/
+theorem imsd_particle_relabel (σ : Nat → Nat) (hσ : ∀ a b, σ a = σ b → a = b) (t : List PRow)
+    (d : Nat) (mpp fps : Rat) (maxLag : Nat) (col : Out → Option Rat) (p lag : Nat)
+    (hp : p ∈ particleIds t) :
+    imsdCell (perParticle (relabel σ t) d mpp fps maxLag) col (σ p) lag
+      = imsdCell (perParticle t d mpp fps maxLag) col p lag := by
+  have hp' : σ p ∈ particleIds (relabel σ t) :=
+    (particleIds_relabel σ hσ t).mem_iff.mpr (List.mem_map.mpr ⟨p, hp, rfl⟩)
+  rw [imsd_eq_msd _ d mpp fps maxLag col (σ p) lag hp', imsd_eq_msd t d mpp fps maxLag col p lag hp,
+    rowsOf_relabel σ hσ]
+
+/-! ## (e) the seeded change: the trajectory laid out from frame 0 -/
+
+/-- `msd` with the seeded change of `_msd_gaps` (seeded/C17-A4):
+`pos.reindex(np.arange(1 + pos.index[-1]))` instead of
+`pos.reindex(np.arange(pos.index[0], 1 + pos.index[-1]))` — the gaps path lays the trajectory out
+from frame 0, so `len(pos)` (which clips `max_lagtime` and enters `N`) is `last + 1`.  NOT the model;
+defined for the witness only. -/
+def msdFromZero (rows : List FullRow) (d : Nat) (mpp fps : Rat) (maxLag : Nat) : List Out :=
+  let s := sortRows rows
+  match s.head?, s.getLast? with
+  | some a, some z =>
+    let n := (z.1 - a.1).toNat + 1
+    if n = s.length then fftOut s d mpp fps maxLag
+    else gapsOut s 0 (z.1.toNat + 1) d mpp fps maxLag
+  | _, _ => []
+
+/-- the variant is right exactly on the trajectories a test-suite tends to use: first frame 0 -/
+theorem fromZero_eq_of_start_zero (rows : List FullRow) (d : Nat) (mpp fps : Rat) (maxLag : Nat)
+    (h0 : ∀ a, (sortRows rows).head? = some a → a.1 = 0) :
+    msdFromZero rows d mpp fps maxLag = msd rows d mpp fps maxLag := by
+  unfold msdFromZero msd
+  simp only
+  cases hh : (sortRows rows).head? with
+  | none => rfl
+  | some a =>
+    cases hl : (sortRows rows).getLast? with
+    | none => rfl
+    | some z =>
+      have ha := h0 a hh
+      simp only [ha, Int.sub_zero]
+
+/-- a gapped trajectory (frame 5 missing) that starts at frame 3; one coordinate -/
+def exGap : List FullRow := [(3, [0]), (4, [1]), (6, [4])]
+
+theorem sortRows_exGap : sortRows exGap = exGap := by
+  unfold sortRows exGap
+  apply List.mergeSort_of_pairwise
+  simp
+
+theorem sortRows_exGap_zero : sortRows (shiftFrames (-3) exGap) = [(0, [0]), (1, [1]), (3, [4])] := by
+  rw [sortRows_frame_shift, sortRows_exGap]
+  rfl
+
+/-- the model on `exGap` (mpp = 1, fps = 1, max_lagtime = 10): lags 1, 2, 3 = max − min; at lag 1
+one pair (3→4: 1), at lag 2 one pair (4→6: 9), at lag 3 one pair (3→6: 16);
+`N = _msd_N(4, lag) · 3/4` -/
+theorem msd_exGap : (msd exGap 1 1 1 10).map (fun o => (o.lag, o.msd, o.n))
+    = [(1, some 1, msdN 4 1 * 3 / 4), (2, some 9, msdN 4 2 * 3 / 4), (3, some 16, msdN 4 3 * 3 / 4)] := by
+  unfold msd
+  rw [sortRows_exGap]
+  decide +kernel
+
+/-- **(e) witness for the seeded change**: laid out from frame 0 instead of from its first frame,
+the gapped trajectory `exGap` (frames 3, 4, 6) gets
+* another lag list — `1 … 6` (= last frame) instead of `1 … 3` (= last − first),
+* another weight `N` at the lags both list (`_msd_N(7, lag) · 3/7` instead of `_msd_N(4, lag) · 3/4`;
+  at lag 1: `18/7` instead of `9/4`; the values of the statistic agree where both are defined),
+* and it is NOT invariant under renumbering the frames: the same trajectory started at frame 0
+  gives another table — while the model's `msd` gives the same one (`msd_frame_shift`) -/
+theorem start_frame_matters_if_laid_out_from_zero :
+    (msdFromZero exGap 1 1 1 10).map (·.lag) = [1, 2, 3, 4, 5, 6]
+      ∧ (msd exGap 1 1 1 10).map (·.lag) = [1, 2, 3]
+      ∧ (msdFromZero exGap 1 1 1 10).map (·.n) ≠ ((msd exGap 1 1 1 10).map (·.n))
+      ∧ ((msdFromZero exGap 1 1 1 10).take 3).map (·.n) ≠ (msd exGap 1 1 1 10).map (·.n)
+      ∧ (msdFromZero exGap 1 1 1 10).head?.map (·.n) = some (18 / 7)
+      ∧ (msd exGap 1 1 1 10).head?.map (·.n) = some (9 / 4)
+      ∧ ((msdFromZero exGap 1 1 1 10).take 3).map (·.msd) = (msd exGap 1 1 1 10).map (·.msd)
+      ∧ msdFromZero (shiftFrames (-3) exGap) 1 1 1 10 ≠ msdFromZero exGap 1 1 1 10
+      ∧ msdFromZero (shiftFrames (-3) exGap) 1 1 1 10 = msd exGap 1 1 1 10 := by
+  have hm : msd exGap 1 1 1 10 = gapsOut exGap 3 4 1 1 1 10 := by
+    unfold msd; rw [sortRows_exGap]; rfl
+  have hz : msdFromZero exGap 1 1 1 10 = gapsOut exGap 0 7 1 1 1 10 := by
+    unfold msdFromZero; rw [sortRows_exGap]; rfl
+  have hs : msdFromZero (shiftFrames (-3) exGap) 1 1 1 10
+      = gapsOut [(0, [0]), (1, [1]), (3, [4])] 0 4 1 1 1 10 := by
+    unfold msdFromZero; rw [sortRows_exGap_zero]; rfl
+  rw [hm, hz, hs]
+  refine ⟨by decide +kernel, by decide +kernel, by decide +kernel, by decide +kernel,
+    by decide +kernel, by decide +kernel, by decide +kernel, by decide +kernel, by decide +kernel⟩
+
+/-! ## non-vacuity -/
+
+/-- (a) on `exGap`, renumbered so that it starts at frame −4 (k = −7): a different table, the same
+`msd` — whose content is the non-trivial table of `msd_exGap` (gaps path, one NaN-free row per lag) -/
+example : shiftFrames (-7) exGap = [(-4, [0]), (-3, [1]), (-1, [4])] ∧ shiftFrames (-7) exGap ≠ exGap ∧
+    msd (shiftFrames (-7) exGap) 1 1 1 10 = msd exGap 1 1 1 10 ∧
+    isContiguous exGap = false ∧ (msd exGap 1 1 1 10).length = 3 := by
+  refine ⟨by decide, by decide, msd_frame_shift _ _ _ _ _ _, ?_, ?_⟩
+  · unfold isContiguous; rw [sortRows_exGap]; decide
+  · have := congrArg List.length msd_exGap
+    simpa using this
+
+/-- (a) on the definition: lag 2 has the pair 4→6 whatever the origin of the frame axis, lag 4 has
+no pair whatever the origin -/
+example : msdDef 1 1 (shiftFrames 100 exGap) 2 = some 9 ∧ msdDef 1 1 exGap 2 = some 9 ∧
+    msdDef 1 1 (shiftFrames 100 exGap) 4 = none := by
+  rw [msdDef_frame_shift, msdDef_frame_shift]
+  have hr : List.range 1 = [0] := by decide
+  constructor
+  · simp [msdDef, hr, sqDef, diffs, coord, exGap, meanOpt, sumOpt, sq]
+    norm_num
+  constructor
+  · simp [msdDef, hr, sqDef, diffs, coord, exGap, meanOpt, sumOpt, sq]
+    norm_num
+  · simp [msdDef, hr, sqDef, diffs, coord, exGap, meanOpt, sumOpt]
+
+/-- (c) on `exGap` with `c = 1/2` (positions 0, 1/2, 2): the hypothesis holds, the scaled table is a
+different table, `msd` is multiplied by `1/4` (lag 2: 9 ↦ 9/4), `N` and the lags stay -/
+example : NodupFrames exGap ∧ scalePos (1 / 2) exGap = [(3, [0]), (4, [1 / 2]), (6, [2])] ∧
+    (msd (scalePos (1 / 2) exGap) 1 1 1 10).map (fun o => (o.lag, o.msd, o.n))
+      = [(1, some (1 / 4), msdN 4 1 * 3 / 4), (2, some (9 / 4), msdN 4 2 * 3 / 4),
+         (3, some 4, msdN 4 3 * 3 / 4)] := by
+  have hnd : NodupFrames exGap := by unfold NodupFrames; decide
+  refine ⟨hnd, by decide +kernel, ?_⟩
+  rw [msd_length_unit _ _ _ _ _ _ hnd, List.map_map,
+    show ((fun o : Out => (o.lag, o.msd, o.n)) ∘ Out.scale (1 / 2))
+      = (fun x : Nat × Option Rat × Rat => (x.1, x.2.1.map (· * (1 / 2 * (1 / 2))), x.2.2))
+        ∘ (fun o : Out => (o.lag, o.msd, o.n)) from rfl,
+    ← List.map_map, msd_exGap]
+  decide +kernel
+
+/-- an injective renaming that reverses the order of the particles 1 and 2 of `exTable` -/
+def exSigma (p : Nat) : Nat := if p ≤ 10 then 10 - p else p
+
+theorem exSigma_injective : ∀ a b, exSigma a = exSigma b → a = b := by
+  intro a b
+  unfold exSigma
+  split <;> split <;> omega
+
+/-- (b), (c), (d) on the two-particle table `exTable` (particle 1 has a gap at frame 2): the
+hypotheses of `emsd_length_unit` hold, `exSigma` is injective, the renamed table lists the particles
+in the other order, the renumbered table is another table — and the invariant ensemble value at lag 1
+is a genuine weighted mean of two particles -/
+example : particleIds (relabel exSigma exTable) = [8, 9] ∧ particleIds exTable = [1, 2] ∧
+    (∀ p ∈ particleIds exTable, NodupFrames (rowsOf exTable p)) ∧
+    shiftTable 7 exTable ≠ exTable ∧
+    emsdAt (perParticle (relabel exSigma (shiftTable 7 exTable)) 2 1 1 10) Out.msd 1
+      = emsdAt (perParticle exTable 2 1 1 10) Out.msd 1 := by
+  refine ⟨by decide, by decide, ?_, by decide, ?_⟩
+  · unfold NodupFrames
+    decide
+  · rw [(emsd_particle_relabel exSigma exSigma_injective _ 2 1 1 10 Out.msd 1).1,
+      (emsd_frame_shift 7 exTable 2 1 1 10 Out.msd 1).1]
+
 end TrackpyV.MSD
